@@ -449,6 +449,11 @@ func (p *partition) Subscribe(ctx context.Context, req *client.SubscribeRequest)
 	if req.Reverse {
 		reader, err = p.log.NewReverseReader(startOffset, false)
 	} else {
+		// A start offset beyond the end of the log means the next message to
+		// be written.
+		if next := p.log.NewestOffset() + 1; startOffset > next {
+			startOffset = next
+		}
 		reader, err = p.log.NewReader(startOffset, false)
 	}
 	if err != nil {
@@ -464,7 +469,7 @@ func (p *partition) Subscribe(ctx context.Context, req *client.SubscribeRequest)
 	}
 
 	p.srv.startGoroutine(p.newSubscribeLoop(ctx, groupID, sub, reader,
-		stopOffset, ch, errCh, cancel, req.Reverse))
+		startOffset, stopOffset, ch, errCh, cancel, req.Reverse))
 
 	if groupID != "" {
 		p.consumers[groupID] = &groupMember{
@@ -480,7 +485,7 @@ func (p *partition) Subscribe(ctx context.Context, req *client.SubscribeRequest)
 // newSubscribeLoop returns a function to be called in a goroutine which starts
 // the subscription loop.
 func (p *partition) newSubscribeLoop(ctx context.Context, groupID string, sub *subscription,
-	reader commitlog.MessageReader, stopOffset int64, ch chan<- *client.Message, errCh chan<- *status.Status,
+	reader commitlog.MessageReader, startOffset, stopOffset int64, ch chan<- *client.Message, errCh chan<- *status.Status,
 	cancel <-chan struct{}, reverse bool) func() {
 
 	return func() {
@@ -520,6 +525,13 @@ func (p *partition) newSubscribeLoop(ctx context.Context, groupID string, sub *s
 				case <-cancel:
 				}
 				return
+			}
+			if !reverse && offset < startOffset {
+				// A committed reader created beyond the high watermark resumes
+				// from the first message committed after its creation, which
+				// can be before the requested start offset if the log held
+				// uncommitted messages at that time. Skip those.
+				continue
 			}
 			if !reverse && stopOffset != waitForNewMessages && offset > stopOffset {
 				// The stop offset itself is not in the log (e.g. removed by
